@@ -1151,9 +1151,11 @@ var blockingCMDs = map[string]bool{
 	"bzpopmax":    false,
 	"bzmpop":      false,
 	"clientpause": false,
-	"migrate":     false,
-	"wait":        false,
-	"waitaof":     false,
+	// RedisGears: the calling client is blocked until the execution ends
+	"rggetresultsblocking": false,
+	"migrate":              false,
+	"wait":                 false,
+	"waitaof":              false,
 }
 
 var cacheableCMDs = map[string]bool{
